@@ -68,6 +68,15 @@ Proof.
   apply promote_holds; auto. pose proof (tmin_le_tmax t Hw). unfold tmin, tmax in *. destruct (sg t); lia.
 Qed.
 
+(* the int64_t negation idiom of the repaired generic templates *)
+Lemma cast_i64_id z : - 2 ^ 63 <= z < 2 ^ 63 -> cast i64 z = z.
+Proof. intros; apply cast_id; unfold wf, tmin, tmax; cbn; try change (2 ^ (64 - 1)) with (2 ^ 63); lia. Qed.
+Lemma wabs_abs sgn y : (sgn = false -> 0 <= y) -> - 2 ^ 63 < y < 2 ^ 63 -> wabs sgn y = Z.abs y.
+Proof.
+  intros Hs Hy. unfold wabs. destruct sgn; [|specialize (Hs eq_refl); lia].
+  destruct (Z.ltb_spec y 0); rewrite !cast_i64_id by (try rewrite cast_i64_id; lia); lia.
+Qed.
+
 (* rounding to a prec-bit significand is the identity below 2^prec *)
 Lemma rnd_exact prec z : 0 < prec -> Z.abs z < 2 ^ prec -> rnd prec z = z.
 Proof.
